@@ -155,7 +155,8 @@ def run_one(seed, tape, opts):
     pausing = tape.choose(3, "pausing") == 0
     w.reactive_pause = pausing
     wl = cc.Workload(w, tape, max_subs=3, max_ops=12,
-                     listen_late=not listeners_first, pausing=pausing)
+                     listen_late=not listeners_first, pausing=pausing,
+                     producers=bool(opts.get("staged")))
     for s_ in w.sides:
         s_.reuse_endpoints = tape.choose(2, "reuse_ep") == 0
     faults = cc.L2Faults(w, tape, tape.choose(5, "fb") if
